@@ -51,13 +51,20 @@ C05_STEPS = [
 ]
 CHAN_LOOPS = ("--max-field-sensitivity-array-size 2048 --unwindset _RNvNtNtCs2jm5Ny5fF8r_11signal_hook9low_level7channel7dequeue.0:5,"
               "_RNvNtNtCs2jm5Ny5fF8r_11signal_hook9low_level7channel7enqueue.0:5")
-def C08H(name, what):
-    return H("c06::proofs::" + name, Q, timeout=2400, judge_repo_panics=True, judge_repo_unwind=True, also=["C06"], cbmc_args=CHAN_LOOPS,
+def C08H(name, what, tiers=Q):
+    return H("c06::proofs::" + name, tiers, timeout=2400, judge_repo_panics=True, judge_repo_unwind=True, also=["C06"], cbmc_args=CHAN_LOOPS,
              what=what + ": no panic, no waiting (the two CAS loops are bounded to 4 iterations: first attempt + 1 interruption + 1 spurious failure + 1 spare), own steps bounded, tags conserved and ordered",
              bounds="NEST depth 1, 1 nested operation at any shim point, 1 spurious weak-CAS failure, concrete pre-state; CAS loops bounded by --unwindset (exceeding it is reported as waiting)")
+C09_DISP = [
+    H("c09::proofs::c09_nest_delivery_inside_consumer_dispatcher", T, also=["C10"], timeout=2400,
+      what="as c09_nest_delivery_inside_consumer, every delivery going through the kernel model and the registry's real dispatcher instead of calling the registered action directly",
+      bounds="NEST depth 1, 1 nested delivery + 1 earlier delivery or stale wake-up byte; 4-entry slot table"),
+    H("c09::proofs::c09_nest_consumer_inside_delivery_dispatcher", T, timeout=2400,
+      what="as c09_nest_consumer_inside_delivery, through the real dispatcher", bounds="NEST depth 1, 1 nested consumer iteration"),
+]
 C09_NEST = [
     H("c09::proofs::c09_nest_delivery_inside_consumer", Q, also=["C10"], timeout=2400,
-      what="a complete delivery (real dispatcher + exfiltrating action) nested at every system call / slot access of one consumer iteration (read, drain, scan); next iteration must not sleep with the signal unreported",
+      what="a complete delivery (the exfiltrating action add_signal registered, invoked directly) nested at every system call / slot access of one consumer iteration (read, drain, scan); next iteration must not sleep with the signal unreported",
       bounds="NEST depth 1, 1 nested delivery + 1 earlier delivery or stale wake-up byte; 4-entry slot table"),
     H("c09::proofs::c09_nest_consumer_inside_delivery", Q, timeout=2400,
       what="a complete consumer iteration (another thread) nested at every system call / slot access of the delivering action (between store and wake)",
@@ -69,11 +76,16 @@ C11_NEST = [
       bounds="NEST depth 1, close before or inside the call"),
     H("c09::proofs::c11_nest_close_inside_wait", Q, also=["C10"], timeout=2400,
       what="close() nested anywhere inside a blocking wait; two later waits must return", bounds="NEST depth 1"),
+    H("c09::proofs::c11_nest_consumer_inside_close", Q, also=["C10"], timeout=2400,
+      what="the consumer of another thread (woken by a byte, iterating, going back to sleep) nested at the store and the system call of close(): when close() returns no consumer sleeps without a wake-up written after it fell asleep; later waits return",
+      bounds="NEST depth 1, <=2 nested consumer iterations at one point"),
 ]
 C12_ALL = [
     H("c12::proofs::c12_panicking_inputs_refused_cleanly", Q, also=["C14"], what="add_signal(too large / negative / beyond table / c_int::MAX): never returns, no state change, instance lock not held when the refusal is raised", bounds="4 input classes; 4-entry table in verification builds"),
     H("c12::proofs::c12_survives_poisoned_lock", Q, what="from 'ids lock poisoned by an earlier caught panic': add_signal of a valid signal completes and takes effect", bounds="-"),
-    H("c12::proofs::c12_err_path_signal_only", T, timeout=3600, what="kernel-rejected add_signal: Err, nothing changes, retry identical, later valid add works, re-add is a no-op, earlier signal still delivered (SignalOnly)", bounds="-"),
+    H("c12::proofs::c12_err_path_signal_only", Q, timeout=2400, what="kernel-rejected add_signal: Err, nothing changes, retry identical, later valid add works, re-add is a no-op, earlier signal still delivered (SignalOnly)", bounds="-"),
+    H("c12::proofs::c12_failed_with_pipe_leaves_nothing", Q, what="the constructor behind Signals::new / SignalsInfo::with_exfiltrator fails on its second signal: nothing stays registered, both pipe ends closed exactly once, no action of the failed instance runs later", bounds="2 signals, second rejected by the kernel"),
+    H("c12::proofs::c12_drop_with_poisoned_lock", T, timeout=2400, what="dropping an instance whose ids lock was poisoned by a caught panic completes and unregisters", bounds="-"),
     H("c12::proofs::c12_err_path_raw_siginfo", Q, what="same with WithRawSiginfo (lazily initialised per-signal channel)", bounds="-"),
 ]
 def c14(e, tiers):
@@ -81,11 +93,16 @@ def c14(e, tiers):
             H("c14::proofs::c14_rejected_%s" % e, tiers, what="any c_int the kernel rejects through %s: Err, nothing changed, would-be action and captures released once" % e, bounds="all kernel-rejected c_int values")]
 
 CATALOGUE = {
-    "C01": [C01_LR],
-    "C02": [C05_CONCRETE, C05_UNREG_ANY,
+    "C01": [C01_LR,
+            H("c01::proofs::c01_lr_w1x2_r1x2_k4", T, lr=True, timeout=3000,
+              what="real half_lock.rs: 1 writer thread x 2 store(), 1 reader thread with two consecutive read sections (second one in the other generation slot)",
+              bounds="Lal-Reps K=4 rounds, 2 threads, spin bound 4, unwind 8")],
+    "C02": [C05_CONCRETE,
+            H("c05::proofs::c02_q_removed_id_used_again", Q, what="register, unregister(id), register, unregister(the same id again), deliver: exactly the one registered and never removed action runs", bounds="1 signal, concrete history"),
+            C05_UNREG_ANY,
             H("c05::proofs::c05_step_deliver", T, timeout=3000, what="one delivery from any valid state", bounds="symbolic state"),
-            H("c02::proofs::c02_nest_unregister", T, timeout=3600, what="deliveries nested at every shim point of unregister(): each runs the old or the new action list", bounds="NEST depth 1, <=2 nested deliveries"),
-            H("c02::proofs::c02_nest_register", T, timeout=3600, what="deliveries nested at every shim point of register()", bounds="NEST depth 1, <=2 nested deliveries")],
+            H("c02::proofs::c02_nest_unregister", Q, timeout=2400, what="deliveries nested at every shim point of unregister(): each runs the old or the new action list", bounds="NEST depth 1, <=2 nested deliveries"),
+            H("c02::proofs::c02_nest_register", Q, timeout=2400, what="deliveries nested at every shim point of register()", bounds="NEST depth 1, <=2 nested deliveries")],
     "C03": [
         H("c03::proofs::c03_control_alloc_is_seen", Q, what="positive control: an action that allocates trips the allocation flag (allocator entry points are stubbed)", bounds="-"),
         H("c03::proofs::c03_seq_builtin_actions", Q, timeout=2400, what="two deliveries through the real dispatcher into flag + self-pipe wake + conditional shutdown, pipe at any fill level: no lock/spin/alloc/free/blocking write, bounded steps", bounds="capacity 3"),
@@ -94,26 +111,35 @@ CATALOGUE = {
     ],
     "C04": [
         H("c04::proofs::c04_seq_chain_all_dispositions", Q, what="previous disposition in {default, ignore, 1-arg handler, 3-arg SA_SIGINFO handler}; deliveries before the take-over, after it, after another signal's first registration: chained exactly once, first, right convention and arguments", bounds="4 dispositions x 3 arrival instants"),
-        H("c04::proofs::c04_chain_first_registration", T, timeout=3600, what="same with the kernel delivering at every shim point / system call of the first registration (nested)", bounds="NEST depth 1, <=2+1 nested deliveries"),
+        H("c04::proofs::c04_chain_first_registration", Q, timeout=2400, what="same with the kernel delivering at every shim point / system call of the first registration (nested on the registering thread), and of another signal's first registration", bounds="NEST depth 1, <=2+1 nested deliveries"),
+        H("c04::proofs::c04_lr_chain_vs_registration", T, lr=True, timeout=3600, what="thread 0 performs the first registration of the signal (then of another signal) while thread 1 receives the signal twice at any instant", bounds="Lal-Reps K=3, 2 threads"),
     ],
     "C05": [C05_CONCRETE, C05_FRESH, C05_FRESH2, C05_UNREG_ANY] + C05_STEPS,
     "C06": [
         H("c06::proofs::c06_seq_send_step", Q, what="one send() from any well-formed channel state (<=2 indices in flight) vs 5-bounded FIFO", bounds="all queue words satisfying the representation invariant; payload u8"),
         H("c06::proofs::c06_seq_recv_step", Q, what="one recv() from any well-formed channel state vs FIFO pop", bounds="as above"),
         H("c06::proofs::c06_new_is_empty", Q, what="Channel::new() is empty and well-formed", bounds="-"),
-        C08H("c08_q_send_in_recv", "nested clause of C06: recv() interrupted by a complete send"),
+        C08H("c08_q_send_in_send", "nested clause of C06: send() interrupted by a complete send (both take an index from the same free list)"),
     ],
     "C07": [
         H("c07::proofs::c07_lr_reuse_k3", Q, lr=True, what="consumer takes the only queued value, producer's send reuses that cell: happens-before under declared orderings, drops", bounds="Lal-Reps K=3, 2 threads, <=1 spurious CAS failure"),
+        H("c07::proofs::c07_lr_p2_k3", Q, lr=True, timeout=2400, what="two producers on two threads (the documented multi-producer mode), one send each, channel dropped afterwards: no two threads touch a cell without happens-before, every value dropped exactly once", bounds="Lal-Reps K=3, 2 threads, <=1 spurious CAS failure"),
+        H("c07::proofs::c07_lr_p1x2_c1_k3", T, lr=True, timeout=3600, what="1 producer (2 sends), 1 consumer (2 recvs): cell races, exactly-once drop, FIFO clauses", bounds="Lal-Reps K=3, 2 threads, <=1 spurious CAS failure"),
         H("c07::proofs::c07_lr_p2_c1_k3", T, lr=True, timeout=3600, what="2 producers (1 send each), 1 consumer (2 recvs): cell races, exactly-once drop, FIFO clauses", bounds="Lal-Reps K=3, 3 threads, <=1 spurious CAS failure"),
     ],
     "C08": [C08H("c08_q_send_in_send", "send() interrupted by a complete send (signal handler on the same thread), 2 values queued"),
             C08H("c08_q_send_in_recv", "recv() interrupted by a complete send, 2 values queued"),
             C08H("c08_q_send_in_send_last_slot", "send() interrupted by a send that takes the last free slot (4 queued)"),
             C08H("c08_q_recv_in_recv", "recv() interrupted by a complete recv (second consumer), 2 values queued"),
-            C08H("c08_q_recv_in_send_full", "send() on a full channel interrupted by a recv that frees a slot")],
-    "C09": C09_NEST + [H("c09::proofs::c10_seq_counts_signal_only", T, also=["C10"], timeout=2400, what="sequential histories of deliveries and pending() batches", bounds="3 steps")],
-    "C10": [H("c09::proofs::c10_seq_counts_signal_only", Q, also=["C09"], timeout=2400, what="histories of deliveries (watched and unwatched signal) and pending() batches: yields <= deliveries, nothing unwatched, nothing reported twice", bounds="3 steps + 2 final batches")] + C09_NEST[:1],
+            C08H("c08_q_recv_in_send_full", "send() on a full channel interrupted by a recv that frees a slot"),
+            C08H("c08_q_send_in_recv_full", "recv() on a full channel interrupted by a send (which finds no slot, or the one recv has just freed)", T)],
+    "C09": C09_NEST + C09_DISP + [H("c09::proofs::c10_seq_counts_signal_only", T, also=["C10"], timeout=2400, what="sequential histories of deliveries and pending() batches", bounds="3 steps")],
+    "C10": [H("c09::proofs::c10_seq_counts_signal_only", Q, also=["C09"], timeout=2400, what="histories of deliveries and pending() batches (SignalOnly): a burst collapses to one report, nothing reported twice, yields <= deliveries", bounds="3 deliveries, 3 batches"),
+            H("c09::proofs::c10_seq_raw_records_burst7", Q, also=["C09"], timeout=2400, what="WithRawSiginfo end to end (real dispatcher, exfiltrator, channel): 7 deliveries with symbolic payloads in one burst (buffer holds 5), an unwatched signal in between: every record is a faithful copy of one delivery, in delivery order, at most one per delivery, none twice", bounds="7 deliveries; si_code and 8 payload bytes symbolic per delivery; batch points concrete"),
+            H("c09::proofs::c10_seq_raw_records_3_4", Q, also=["C09"], timeout=2400, what="same, a batch after 3 deliveries and one after 4 more", bounds="as above"),
+            H("c09::proofs::c10_nest_raw_delivery_inside_load", Q, also=["C09"], timeout=2400, what="WithRawSiginfo: five deliveries fill the buffer, a sixth lands at any shim point of the consumer's first load (slot pointer, channel words, cell): records faithful, in order, at most one per delivery", bounds="NEST depth 1, 1 nested delivery (registered action invoked directly)"),
+            H("c09::proofs::c10_seq_raw_records_6_1", T, also=["C09"], timeout=2400, what="same, a batch after 6 deliveries and one after the 7th", bounds="as above"),
+            ] + C09_NEST[:1] + C09_DISP[:1],
     "C11": C11_NEST,
     "C12": C12_ALL,
     "C13": [
